@@ -17,7 +17,8 @@ EXTENDS Integers, TLC
 CONSTANTS W,          \* bits per word
           MaxWords,   \* largest modulus: MaxWords words
           FixOne,     \* TRUE: model the repaired `one()` (F23)
-          FixCheck    \* TRUE: model the repaired Reducer::check (F51)
+          FixCheck,   \* TRUE: model the repaired Reducer::check (F51)
+          Strict      \* TRUE: do not excuse the open findings (TLC must then re-find them in the unrepaired model)
 
 P2(k) == 2 ^ k
 NBits(n) == IF n = 0 THEN 0 ELSE CHOOSE k \in 1..(W * MaxWords + 1) : P2(k - 1) <= n /\ n < P2(k)
@@ -129,8 +130,8 @@ Expected ==
     [] op = "one" -> 1 % m
 
 \* open findings mirrored (the model is the code as it is)
-Known_F23 == op = "one" /\ m = 1 /\ ~FixOne
-Known_F51 == op \in {"radd", "rdbl"} /\ Kind(m) = "large" /\ flag = 1 /\ ~FixCheck
+Known_F23 == ~Strict /\ op = "one" /\ m = 1 /\ ~FixOne
+Known_F51 == ~Strict /\ op \in {"radd", "rdbl"} /\ Kind(m) = "large" /\ flag = 1 /\ ~FixCheck
 
 Homomorphic ==
   op \notin {"init", "picked"} =>
